@@ -50,6 +50,7 @@ func (r *vDribbleReader) Read(p []byte) (int, error) {
 }
 
 var zSharedList = []int32{4, 5, 6}
+var zSharedMap = map[string]int32{"k": 3}
 
 type ZFold struct {
 	UserID int32
@@ -83,6 +84,8 @@ func zStreamValue(kind int, tag string, shared *ZInner) interface{} {
 		return zSmall(tag)
 	case 1: // a short string with one arbitrary code point of any UTF-8 width
 		return string([]rune{'t', vScalar(tag), 'z'})
+	case 20: // the same map every time: later occurrences travel as back-references
+		return zSharedMap
 	case 19: // field names that start with a capital outside ASCII
 		return &ZUnicodeNames{Ärger: "a", Ωhm: zSmall(tag), Normal: 4}
 	case 18: // two fields whose names are equal under case folding
@@ -159,6 +162,10 @@ func zStreamEq(kind int, a, b interface{}) bool {
 	case 17:
 		x, ok := b.(*ZEmpty)
 		return ok && x != nil
+	case 20:
+		// (an unnamed map type comes back as map[interface{}]interface{}: known finding; never as a pointer to one)
+		x, ok := b.(map[interface{}]interface{})
+		return ok && len(x) == 1 && x["k"] == interface{}(int32(3))
 	case 19:
 		x, ok := b.(*ZUnicodeNames)
 		w := a.(*ZUnicodeNames)
@@ -230,7 +237,7 @@ func H_C06_stream() {
 			// third value (thorough tier): the kinds that refer back to earlier messages or are referred to
 			kinds[i] = []int{0, 2, 4, 5, 13, 14}[vChoice("kind3", 6)]
 		} else {
-			kinds[i] = vChoice("kind", 20)
+			kinds[i] = vChoice("kind", 21)
 		}
 		vals[i] = zStreamValue(kinds[i], "v", shared)
 	}
